@@ -319,13 +319,18 @@ Definition choice_ok (T : table) (d : descr) : bool :=
       && (-1 <=? es) && (es <=? n)
       && forallb (fun m => negb (is_opt m)) ms
       && match canon with
-         | Some (a, b) => inverse_perms n a b
-         | None => negb (t_per T) || (n =? 0)
+         | Some (a, b) =>
+             (* root alternatives and extension additions are ordered separately: both tables keep the split *)
+             inverse_perms n a b
+             && forallb (fun ix => let '(i, x) := ix in Bool.eqb (i <? root_end n es) (x <? root_end n es))
+                        (combine (zseq 0 (length a)) a)
+         | None => true     (* the emitter omits the tables when the definition order is already canonical *)
          end
       && match d_per d with
          | Some pc =>
              let v := pc_value pc in
-             (p_lb v =? 0) && (p_ub v =? root_end n es - 1) && Bool.eqb (0 <=? es) (p_flags v =? 6)
+             (* a CHOICE without root alternatives gets 0..0 *)
+             (p_lb v =? 0) && (p_ub v =? Z.max 0 (root_end n es - 1)) && Bool.eqb (0 <=? es) (p_flags v =? 6)
          | None => negb (t_per T)
          end
   | _ => false
